@@ -665,6 +665,14 @@ class Normalizer:
                 ast.fix_missing_locations(call)
                 return self._canonical_iteration("filter", call)
             return None
+        if dotted in ("functools.reduce", "reduce") and len(e.args) == 3 and isinstance(e.args[2], ast.List) and not e.args[2].elts \
+                and self._dotted_external(e.args[0]) in ("operator.iconcat", "iconcat", "operator.concat", "concat", "operator.add", "add"):
+            # reduce(iconcat, lists, []) == list(chain.from_iterable(lists))
+            inner = self.norm(e.args[1])
+            if inner[0] == "comp" and inner[1] in ("list", "gen", "tuple"):
+                n = len(inner[3])
+                return ("comp", "list", ("bv", self.level + n), inner[3] + ((inner[2], ()),))
+            return ("comp", "list", ("bv", self.level + 1), ((inner, ()), (("bv", self.level), ())))
         if dotted == "zip" and len(e.args) == 2:
             # zip(repeat(c), xs) == ((c, x) for x in xs)
             def rep(a):
